@@ -27,7 +27,8 @@ DATA = dict(obs=[[1.9, 1.2, 0.8], [1.1, 0.6]], times=[[0.5, 1.5, 2.5], [1.0, 2.0
 REL = {1: 0.15, 2: 0.9}          # value codes of Purity!cells[..].rel
 BASE_FIX = 0.35
 X_LL = np.array([1.3, 0.9, 0.7, 0.4, 0.3, 0.2])
-PAIRS = [('ll', 'lp_same'), ('ll', 'll'), ('llfix', 'pm'), ('hlp', 'll'), ('fp', 'lp'), ('pm', 'lp'), ('hlp', 'fp')]
+PAIRS = [('ll', 'lp_same'), ('ll', 'll'), ('llfix', 'pm'), ('hlp', 'll'), ('fp', 'lp'), ('pm', 'lp'), ('hlp', 'fp'), ('ctrl', 'll'),
+         ('lp', 'ctrl')]
 
 
 def user_models():
@@ -76,6 +77,23 @@ def build(kind, u, shared=None):
         return f, np.array([0.2, 0.3, 0.9, 0.7, 0.4, 0.3, 1.2, 1.4, 0.1, -0.2, 0.3, 0.5, -0.4, 0.2, 0.6, -0.1])
     if kind == 'pm':
         return chi.PredictiveModel(u['mech'], u['ems']), X_LL
+    if kind == 'ctrl':
+        # a posterior built by the problem controller from the user's models and a data frame; the controller (kept in
+        # u['ctrl']) is reconfigured LATER by the walk's mutation steps: the posterior it handed out must not notice
+        import pandas as pd
+        rows = []
+        for ind in (1, 2):
+            for o in range(2):
+                for t, y in zip(u['times'][o], u['obs'][o]):
+                    rows.append(dict(ID=ind, Time=float(t), Observable='obs%d' % o, Value=float(y) + 0.05 * (ind - 1)))
+            rows.append(dict(ID=ind, Time=0.25 * ind, Observable=np.nan, Value=np.nan, Dose=1.5 * ind, Duration=0.25))
+        frame = pd.DataFrame(rows)
+        c = chi.ProblemModellingController(u['mech'], [u['ems'][0].get_error_model(), u['ems'][1]])
+        c.fix_parameters({OUTS[0] + ' Sigma rel.': REL[1]})
+        c.set_data(frame, output_observable_dict={OUTS[0]: 'obs0', OUTS[1]: 'obs1'})
+        c.set_log_prior(prior(6))
+        u['ctrl'], u['frame'] = c, frame
+        return c.get_log_posterior(individual='2'), X_LL
     raise ValueError(kind)
 
 
@@ -99,7 +117,7 @@ def evaluate(kind, obj, x, k):
         xin = x.copy()
         if kind == 'pm':
             out = obj.sample(xin, [2.0, 0.5, 1.0], n_samples=2, seed=3, return_df=False)
-        elif k == 'value' or (k == 'sample') or (k == 'pointwise' and kind in ('lp', 'lp_same', 'hlp', 'fp')):
+        elif k == 'value' or (k == 'sample') or (k == 'pointwise' and kind in ('lp', 'lp_same', 'hlp', 'fp', 'ctrl')):
             out = obj(xin)
         elif k == 'pointwise':
             out = obj.compute_pointwise_ll(xin)
@@ -116,7 +134,7 @@ def eff_kind(kind, k):
         return 'sample'
     if k == 'sample':
         return 'value'
-    if k == 'pointwise' and kind in ('lp', 'lp_same', 'hlp', 'fp'):
+    if k == 'pointwise' and kind in ('lp', 'lp_same', 'hlp', 'fp', 'ctrl'):
         return 'value'
     return k
 
@@ -195,6 +213,13 @@ def replay_walk(arg):
                         # Purity!PU_UserRefix: the user re-fixes the reduced error model he handed over, to another
                         # value, and fixes its other parameter as well
                         u['ems'][0].fix_parameters({'Sigma rel.': REL[a], 'Sigma base': 0.77})
+                    if 'ctrl' in u:
+                        # the controller is reconfigured after it handed out its posterior: other parameters fixed, another
+                        # regimen on ITS model via new data, the user's frame scribbled over
+                        u['ctrl'].fix_parameters({'central.size': 0.33, OUTS[1] + ' Sigma base': 0.44})
+                        u['frame'].loc[u['frame']['Value'].notna(), 'Value'] += 0.5
+                        u['frame'].loc[u['frame']['Dose'].notna(), 'Dose'] *= 3.0
+                        u['ctrl'].set_data(u['frame'], output_observable_dict={OUTS[0]: 'obs0', OUTS[1]: 'obs1'})
                     # the user also renames an error-model parameter and scribbles over the data arrays
                     u['ems'][1].set_parameter_names(['renamed by user', 'too'])
                     u['obs'][0][0] += 1.0
@@ -248,7 +273,7 @@ def replay_walk(arg):
             k += 1
         for o in (1, 2):
             kind, obj, x = objs[o]
-            if kind in ('lp', 'lp_same', 'hlp'):
+            if kind in ('lp', 'lp_same', 'hlp', 'ctrl'):
                 xs = [x, x * 1.01, x * 0.99]
                 par = pints.ParallelEvaluator(obj, n_workers=2).evaluate(xs)
                 seq = pints.SequentialEvaluator(obj).evaluate(xs)
